@@ -1,5 +1,5 @@
 (* props/C02.v -- C02: the on-disk layout means what the specification says, in both directions. *)
-From Geff Require Import Base Dtype Vlen Tree Validate ValidateLemmas Write Read RoundTrip WriteLemmas SpecDecode SpecLemmas.
+From Geff Require Import Base Dtype Vlen Tree Validate ValidateLemmas Write Read RoundTrip WriteLemmas ReadLemmas C01Lemmas SpecDecode SpecLemmas.
 From Geff.Gen Require Import Consts.
 Open Scope string_scope.
 Open Scope list_scope.
@@ -7,6 +7,31 @@ Open Scope list_scope.
 (* SpecDecode.v decodes a store from docs/specification.md alone (hierarchy only, never the metadata) and shares no
    definition with the library's reader model.  sprop_eqb compares decoded properties: same dtype, shape, values,
    with an absent mask and an all-false mask identified. *)
+
+(* FORWARD, whole store: for every clean target and every well-formed input (as in C01), what write_arrays leaves is
+   accepted by structural validation and decodes, following the specification alone, to exactly the graph given to the
+   writer (ids verbatim; every property with its dtype, shape, mask and values, float16 upcast). *)
+Theorem C02_forward : forall k pre g md md' n e ov,
+  clean k pre -> wf_input g md n e -> final_metadata g md = Ok md' ->
+  exists tr post sg,
+    write_arrays k g md true ov (init pre) = (mkst (Some post) tr, Ok tt) /\
+    validate_structure k (Some post) = Ok tt /\
+    spec_decode post = Some sg /\
+    sgraph_eqb sg (mksg (w_nids g) (w_eids g)
+                        (of_props (up_props (backfill (w_nids g) md (w_nprops g))))
+                        (of_props (up_props (w_eprops g)))) = true.
+Proof. exact write_then_spec_decode. Qed.
+Print Assumptions C02_forward.
+
+(* CONVERSE, whole store: whatever store the library reads successfully (with structural validation on) -- written by
+   anyone, with any optional group or array absent, any foreign attribute or member beside it -- the graph it returns is
+   the specification decoding of that store. *)
+Theorem C02_converse : forall k root g,
+  unique_members root ->
+  read_to_memory k (Some root) true None None = Ok g ->
+  exists sg, spec_decode root = Some sg /\ sgraph_eqb sg (of_mgraph g) = true.
+Proof. exact read_is_spec_decode. Qed.
+Print Assumptions C02_converse.
 
 (* forward, per property: what the writer stores for ANY well-formed property (every dtype, rank, mask, var-length mix)
    is decoded by the specification decoder into that property (after the float16 upcast) *)
